@@ -12,7 +12,10 @@ import "fmt"
 //	length), result objects / primitives / collections, result types with views chosen by the
 //	service, declared errors (default ErrorResult, custom object type with header, primitive
 //	type; method, service and API level), undeclared errors (the default error encoder with a
-//	nil formatter), no payload, no result, response content negotiation through Accept.
+//	nil formatter), no payload, no result, response content negotiation through Accept,
+//	streamed request bodies (SkipRequestBodyEncodeDecode: payload in path/header/query plus
+//	the raw body handed to the service). SkipResponseBodyEncodeDecode is left out: its
+//	writer-to-reader adapter blocks in an io.Pipe, outside the controlled scheduler.
 //
 // Methods are packed four per service, one service per design, so that requests to the same
 // and to different endpoints of one mounted server can be in flight together. The thorough
@@ -138,7 +141,35 @@ func C20B(thorough bool) []MethodCase {
 		m.HTTP.Responses = []Resp{{Error: "e_a", Status: 422}, {Error: "e_b", Status: 422}}
 		out = append(out, MethodCase{M: m, Types: []*TypeDef{errT()}})
 	}
-	// ---- groups 3-5: slices of the shared error and view families ----------------------
+	// ---- group 3: streamed request bodies (SkipRequestBodyEncodeDecode) ------------------
+	// the generated handler hands the service a <Method>RequestData{Payload, Body: r.Body}
+	{
+		m := PayloadMethod(name(), []attrAt{{A("id", P(KString)), LocPath, true}, {A("hh", P(KString)), LocHeader, false}})
+		m.Feat = feat("skip-request-body")
+		m.HTTP.SkipReq = true
+		m.Result = ObjT(nil, A("ok", P(KString)))
+		out = append(out, MethodCase{M: m})
+	}
+	{
+		m := PayloadMethod(name(), []attrAt{{A("qv", P(KString)), LocQuery, false}})
+		m.Feat = feat("skip-request-body-noresult")
+		m.HTTP.SkipReq = true
+		m.Errors = []ErrorDef{{Name: "e_a"}}
+		m.HTTP.Responses = []Resp{{Error: "e_a", Status: 400}}
+		out = append(out, MethodCase{M: m})
+	}
+	{
+		m := PayloadMethod(name(), []attrAt{{A("sel", P(KString)), LocBody, false}})
+		m.Feat = feat("plain-body")
+		m.Result = ObjT(nil, A("ok", P(KString)))
+		out = append(out, MethodCase{M: m})
+	}
+	{
+		m := &Method{Name: name(), Feat: feat("noargs"), Result: ObjT(nil, A("ok", P(KString))), HTTP: &HTTPMap{Verb: "GET"}}
+		m.HTTP.Path = "/" + m.Name
+		out = append(out, MethodCase{M: m})
+	}
+	// ---- groups 4-6: slices of the shared error and view families ----------------------
 	errs := L2Errors()
 	views := L2Views(false)
 	pick := func(cs []MethodCase, idx ...int) {
